@@ -484,9 +484,76 @@ fn run_api_typed(l: &[Val]) -> Val {
     }
 }
 
+// kind 10: [10, family, NLRI octets]: NLRIs as a peer sends them in an MP_REACH of `family`, decoded by the repository's
+// decoder (the values the RIB can hold), then each one listed (nlri_to_api) and given back (net_from_api + family check).
+// observation: [0] the UPDATE does not decode to routes | [1, [[display text, Nlri::encode octets, API form listed,
+//               given back: 0 same / 1 changed / 2 refused] ...]]
+fn run_held_nlri(l: &[Val]) -> Val {
+    let f = l[1].u32();
+    let family = Family::new((f >> 16) as u16, (f & 0xff) as u8);
+    let body = l[2].bytes();
+    let mut mp = vec![(family.afi() >> 8) as u8, family.afi() as u8, family.safi()];
+    let flowspec = matches!(
+        family,
+        Family::IPV4_FLOWSPEC | Family::IPV6_FLOWSPEC | Family::IPV4_FLOWSPEC_VPN | Family::IPV6_FLOWSPEC_VPN
+    );
+    if flowspec {
+        mp.push(0);
+    } else if family.afi() == 2 {
+        mp.push(16);
+        mp.extend_from_slice(&[0x20, 1, 0xd, 0xb8, 0, 0, 0, 0, 0, 0, 0, 0, 0, 0, 0, 1]);
+    } else {
+        mp.extend_from_slice(&[4, 192, 0, 2, 1]);
+    }
+    mp.push(0);
+    mp.extend_from_slice(&body);
+    let mut attrs = wire_attr(0x40, 1, &[0]);
+    attrs.extend_from_slice(&wire_attr(0x40, 2, &[]));
+    attrs.extend_from_slice(&wire_attr(0x90, 14, &mp));
+    let msg = update_with_attrs(&attrs, &[]);
+    let mut codec = PeerCodec::new();
+    codec.extended_length = true;
+    for f in ALL_FAMILIES {
+        codec.set_family(f, bgp::FamilyState { addpath_rx: false, addpath_tx: false });
+    }
+    let entries = match codec.parse_message(&msg) {
+        Ok(bgp::ParsedMessage::Update(bgp::ParsedUpdate::Routes { mp_reach: Some(r), .. })) if !r.entries.is_empty() => {
+            r.entries.iter().map(|e| e.nlri.clone()).collect::<Vec<_>>()
+        }
+        _ => return Val::L(vec![i(0)]),
+    };
+    let out = entries
+        .iter()
+        .map(|n| {
+            let text = s_val(&format!("{}", n));
+            let bytes = caught(|| Val::from_bytes(&n.encode_to_bytes()));
+            let listed = caught(|| {
+                let x = nlri_to_api(n);
+                let v = api_xnlri_val(&x);
+                if v != Val::L(vec![i(99)]) {
+                    return v;
+                }
+                let v = api_nlri_val(&x);
+                if v != Val::L(vec![i(99)]) {
+                    return v;
+                }
+                api_evpn_val(&x)
+            });
+            let back = caught(|| match net_from_api(nlri_to_api(n), family) {
+                Ok(b) if !nlri_matches_family(&b, family) => i(2),
+                Ok(b) => i(if b == *n { 0 } else { 1 }),
+                Err(_) => i(2),
+            });
+            Val::L(vec![text, bytes, listed, back])
+        })
+        .collect();
+    Val::L(vec![i(1), Val::L(out)])
+}
+
 fn run_case(case: &Val) -> Val {
     let l = case.list();
     match l[0].int() {
+        10 => run_held_nlri(l),
         9 => run_api_typed(l),
         8 => run_api_xnlri(l),
         6 => run_api_evpn(l),
